@@ -151,8 +151,9 @@ def run_one(cfg, crash):
     intervals = _intervals()
     kw = make_kwargs(cfg, intervals)
     res = {'outcome': 'ok', 'steps': 0, 'lives': 1, 'sig': None, 'msg': None, 'bound': B}
-    old = signal.signal(signal.SIGALRM, _alarm)
-    signal.setitimer(signal.ITIMER_REAL, 20.0)
+    # CPU-time watchdog (not wall clock: the verdict must not depend on machine load); one run costs ~20 ms of CPU
+    old = signal.signal(signal.SIGVTALRM, _alarm)
+    signal.setitimer(signal.ITIMER_VIRTUAL, 60.0)
     try:
         try:
             c = mod.new_combiner(**kw)
@@ -223,7 +224,7 @@ def run_one(cfg, crash):
     except cw.Runaway as ex:
         res.update(outcome='violation', sig='no-termination-within-bound', msg=f'{ex} (bound {B} steps)')
     except _Timeout:
-        res.update(outcome='violation', sig='no-termination-within-bound', msg='combiner still running after 20 s on a toy input')
+        res.update(outcome='violation', sig='no-termination-within-bound', msg='combiner still computing after 60 s of CPU time on a toy input')
     except cw.EngineError as ex:
         res.update(outcome='violation', sig='combiner-asks-engine-for-impossible', msg=f'{ex}')
     except Exception as ex:  # noqa: BLE001
@@ -231,8 +232,8 @@ def run_one(cfg, crash):
             raise
         res.update(outcome='violation', sig=f'combiner-raised-{type(ex).__name__}', msg=f'{type(ex).__name__}: {ex}'[:500])
     finally:
-        signal.setitimer(signal.ITIMER_REAL, 0)
-        signal.signal(signal.SIGALRM, old)
+        signal.setitimer(signal.ITIMER_VIRTUAL, 0)
+        signal.signal(signal.SIGVTALRM, old)
         cw.CURRENT['world'] = None
     res['saves_seen'] = w.saves
     return res
@@ -284,12 +285,13 @@ def crash_plans(nsteps):
 def configs(tier):
     out = []
     if tier == 'quick':
-        Gs, Vmax, seqs = range(0, 6), 3, False
+        Gs, Vmax, seq_upto = range(0, 6), 2, 0
     else:
-        Gs, Vmax, seqs = range(0, 8), 4, True
+        Gs, Vmax, seq_upto = range(0, 8), 4, 2
     for G in Gs:
         for V in range(0, Vmax + 1):
-            it = itertools.product((1, 3, 10), repeat=V) if seqs else itertools.combinations_with_replacement((1, 3, 10), V)
+            it = (itertools.product((1, 3, 10), repeat=V) if V <= seq_upto
+                  else itertools.combinations_with_replacement((1, 3, 10), V))
             for vc in it:
                 for bf in (2, 3, 4):
                     for bs in (1, 2, 3):
@@ -472,8 +474,8 @@ def check(tier, seed, procs):
         'samples': [{'config': rows[len(rows) // 2][0], 'plans': [list(p) for p, _ in rows[len(rows) // 2][1]][:6],
                      'steps_without_crash': rows[len(rows) // 2][1][0][1]['steps']}],
         'exhaustive': True,
-        'bounds': (f'GVCFs 0..{5 if tier == "quick" else 7}; VDSes 0..{3 if tier == "quick" else 4} with sample counts from '
-                   f'{{1,3,10}} ({"multisets" if tier == "quick" else "all sequences"}); branch_factor 2..4; gvcf_batch_size 1..3; '
+        'bounds': (f'GVCFs 0..{5 if tier == "quick" else 7}; VDSes 0..{2 if tier == "quick" else 4} with sample counts from '
+                   f'{{1,3,10}} ({"multisets" if tier == "quick" else "all sequences up to 2 VDSes, multisets for 3-4"}); branch_factor 2..4; gvcf_batch_size 1..3; '
                    'two argument styles (explicit save_path + vds_sample_counts + header-derived sample ids / generated '
                    'save_path + counted samples + external header and sample names); every single crash point of each '
                    'kind and crash-in-every-life; partitioning: contigs 1, 12, MT with lengths '
